@@ -32,6 +32,15 @@ REQUIRED_COUNTERS = ["runs", "calls.concurrent", "overlapping_pairs", "yields_in
                      "threads.2", "threads.4", "threads.8", "shape.shared_node", "shape.t.Object",
                      "trees.parsed", "quiescence.tree_unchanged", "calls.accepted", "calls.rejected", "runs.cold_tree"]
 
+ANCHORS = [
+    "statham.schema.property:_Property.bind",
+    "statham.schema.property:_Property.evolve",
+    "statham.schema.elements.properties:Properties.property",
+    "statham.schema.elements.items:Items.property",
+    "statham.schema.elements.base:Element.__call__",
+    "statham.schema.validation.object:Required.from_element",
+]
+
 
 def plan(tier):
     if tier == "quick":
